@@ -20,6 +20,12 @@
 (*   h.evaluate() after a failed one        | EvalBegin ; LCall* ; ...      *)
 (*     (a retry: what succeeded is kept,    |   (only what is not done yet) *)
 (*      what failed is invoked again)       |                               *)
+(*   the with construct_dag() statement is  | BlockLeft(act)                *)
+(*     left, normally or by an exception    |   (act: task_graph() still    *)
+(*     (construct_dag: try/finally)         |    reports a block: never)    *)
+(*   task_graph() when a call is made       | LBeginObs / EagerBeginObs     *)
+(*   which cache a call inside a block uses | OwnCacheInBlock               *)
+(*     (Pipeline._current_cache)            |                               *)
 (*                                                                         *)
 (* Property C18: the deferred object evaluates to the eager result (both    *)
 (* are Eval of PipelineStatic: the eager call is PipelineCall!Return, the   *)
@@ -59,7 +65,22 @@
 (* deferred nodes across calls: the same don't-care holds for its later     *)
 (* handles, wherever they are built, and a handle built inside a            *)
 (* construct_dag() block may then consist partly of nodes created before    *)
-(* the block (TaskGraphOKFor: the graph rule with old nodes).               *)
+(* the block (TaskGraphOKFor: the graph rule with old nodes) - but only if  *)
+(* the block really works on the pipeline's own cache, which it does only   *)
+(* for a cache of the kind the block itself keeps (OwnCacheInBlock); with   *)
+(* any other user cache the block starts from an empty cache of its own,    *)
+(* every task of the evaluation is created under the recording, and the     *)
+(* graph rule holds in full (TaskGraphOK), whatever was called before.      *)
+(*                                                                         *)
+(* A block is over when its with statement is left, HOWEVER it is left:     *)
+(* normally, or through an exception (of a refused call - BuildRaise* -, of *)
+(* a user function that evaluate() let through - EvalRaise -, or of the     *)
+(* body's own).  Afterwards no block is active (BlockLeft), and every later *)
+(* call - on this pipeline or any other, lazy or eager - is an ordinary     *)
+(* call outside a block (LBeginObs with g = FALSE / EagerBeginObs): it sees *)
+(* none of the block's nodes (memo keeps user-cache entries only: LFinish,  *)
+(* CloseBlock), so it invokes every needed function itself, exactly once,   *)
+(* and evaluates to Eval.                                                   *)
 (***************************************************************************)
 EXTENDS PipelineCall
 
@@ -188,9 +209,17 @@ TaskGraphOK(dd, k, o, g) == TaskGraphOKFor(dd, k, o, g, {}, FALSE)
 (* per-function flag.                                                                                            *)
 UserCache(dd) == "cache_type" \in DOMAIN dd /\ dd.cache_type # ""
 Cached(dd, i) == UserCache(dd)
+(* Which cache a call made inside a construct_dag() block works on (Pipeline._current_cache): the pipeline's own only   *)
+(* when that is of the kind the block itself keeps ("simple": a plain store of the deferred nodes); for every other     *)
+(* kind (lru, hybrid, disk) the block's own cache, which is empty when the block starts.  So only with a "simple" user  *)
+(* cache can a node created BEFORE the block take part in a handle built inside it; with any other kind the recording   *)
+(* is complete: every task of the evaluation is created - and recorded, with its edges - inside the block.              *)
+BlockCacheKind == "simple"
+OwnCacheInBlock(dd) == UserCache(dd) /\ dd.cache_type = BlockCacheKind
 (* with M = the invocations made for earlier handles: which needed functions MAY be old is the cache's business  *)
-(* (don't-care), but only a cached function invoked before with identical resolved arguments can be            *)
-MayBeOld(dd, k, o, M) == {i \in Needed(dd, k, o) : Cached(dd, i) /\ <<i, ArgsOf(dd, k, i)>> \in M}
+(* (don't-care), but only a cached function invoked before with identical resolved arguments can be, and only    *)
+(* when the block works on the cache that holds it                                                             *)
+MayBeOld(dd, k, o, M) == {i \in Needed(dd, k, o) : Cached(dd, i) /\ OwnCacheInBlock(dd) /\ <<i, ArgsOf(dd, k, i)>> \in M}
 TaskGraphOKReuse(dd, k, o, g, M, full) == \E Old \in SUBSET MayBeOld(dd, k, o, M) : TaskGraphOKFor(dd, k, o, g, Old, full)
 
 (* The shape lazy.py records today, for documentation and for exercising TaskGraphOK in the model: one node  *)
@@ -336,8 +365,23 @@ CloseBlock == /\ ~lazy /\ phase = "idle" /\ nh > 0
               /\ nh' = 0 /\ memo' = {x \in memo : Cached(d, x[1])}
               /\ UNCHANGED <<cvars, lazy, dag, nev, count, val, graph, fvars>>
 
+(* The with construct_dag() statement is left.  It may be left normally or through an exception: the one of a call that *)
+(* was refused inside it (BuildRaise*: the handle never existed), the one of a user function that evaluate() let through  *)
+(* (EvalRaise: the handle is still there, phase "built"), or one the body raised itself.  The manner does not matter:     *)
+(* no block is active afterwards (act: lazy.task_graph() still reports one - never), the handles of the block that were   *)
+(* dropped inside it are forgotten (CloseBlock), a live handle stays what it was (it can be evaluated, retried, its graph *)
+(* observed, after the block just as inside: the "built" case changes nothing), and whatever is called next is called    *)
+(* outside a block (nh = 0: LBegin with g = FALSE is enabled, the eager twin may be called).                             *)
+BlockLeft(act) == /\ phase \in {"idle", "built"} /\ ~act
+                  /\ IF nh > 0 THEN CloseBlock ELSE UNCHANGED allvars
+
 (* eager calls (PipelineCall) while no handle is alive and no block is open *)
 Eager(A) == ~lazy /\ nh = 0 /\ A /\ UNCHANGED lvars
+(* A block is active exactly from entering a with construct_dag() statement to leaving it: what the library sees when a  *)
+(* call is made (act: lazy.task_graph() is not None) is what the caller arranged (g) - in particular a call made after a *)
+(* block was left, however it was left, is not made under that block, and an eager call (made outside any block) sees none *)
+LBeginObs(o, k, m, g, act) == act = g /\ LBegin(o, k, m, g)
+EagerBeginObs(o, k, m, act) == ~act /\ Eager(Begin(o, k, m))
 (* the eager twin under its fault plan: an invocation completes (ECall) or raises (ECallFail), and then the call raises *)
 (* that exception (ERaise) and leaves nothing behind: a further eager call starts from scratch (PipelineCall!Begin).    *)
 ECall(i, args)     == ~Fails(eflt, i) /\ Eager(Call(i, args))
